@@ -119,7 +119,7 @@ def fresh_asm(items, restore=True, env=None):
     return json.loads(p.stdout.strip().splitlines()[-1])
 
 
-ALL_ACTS = ["RegCase", "KwCase", "Spacing", "NumBase", "ImmSign", "DispSign", "TermOrder", "DispOut", "Percent", "StBare", "ToAtt"]
+ALL_ACTS = ["RegCase", "KwCase", "Spacing", "NumBase", "ImmSign", "DispSign", "TermOrder", "DispOut", "Percent", "StBare", "ToAtt", "DispSplit"]
 
 
 def spell(lines, maxacts, acts, timeout=3000, chk=None):
@@ -156,9 +156,13 @@ def canon_lines(chk=None):
     lines = gen_lines(chk)
     for i, l in enumerate(lines):
         l['id'] = i
-    sts, r = spell(lines, 1, ['ToAtt'], chk=chk)
+    sts, r = spell(lines, 1, ['ToAtt', 'DispSplit'], chk=chk)
     for s in sts:
-        lines[s['lid']][s['line']['syn']] = s['line']
+        if s['pres'].get('dsp', 'one') != 'one':
+            if s['pres']['dsp'] == 'pm':
+                lines[s['lid']]['intel_split'] = s['line']       # the displacement written as constant arithmetic ([ebx+8-4])
+        else:
+            lines[s['lid']][s['line']['syn']] = s['line']
     d = {'lines': lines, 'states': r.distinct, 'transitions': r.generated}
     tmp = cf + '.%d' % os.getpid()
     json.dump(d, open(tmp, 'w'))
